@@ -29,6 +29,8 @@ def gen_cases(ctx):
     for api in (3, 4):
         for _ in range(4 if ctx.quick else 20):
             cases.append(nc.make_case(rng, rng.choice([1, 2, 5, 9, 13]), 0, api=api, paymode=1, paysize=rng.choice(sizes)))
+    # the caller reuses its output arrays over the calls of a case / passes non-empty output arrays
+    cases += nc.reuse_cases(rng, [1, 2, 2], 8 if ctx.quick else 48)
     return cases
 
 
@@ -59,7 +61,7 @@ def run(ctx):
         dist["multi_call"] += 1 if c.ncalls > 1 else 0
         ctx.count_case(c.text(), nontrivial=c.P > 1 and any(len(x) for pat in c.patterns for x in pat))
         for kind, text, detail in nc.judge(c, r):
-            kk = nc.known_key(c, kind)
+            kk = nc.known_key(c, kind, text)
             key = kk or ("%s:%s" % (kind, c.key()))
             rep = dict(case=c.to_json(), kind=kind)
             rep.update(detail)
